@@ -21,7 +21,7 @@ SUITES = {
     'C07': ['wrapper'], 'C15': ['wrapper'], 'C16': ['wrapper'], 'C18': ['wrapper', 'round', 'sites'],
     'C08': ['cache'], 'C20': ['clone'], 'C12': ['round'], 'C17': ['session', 'keys'],
     'C03': ['backend'], 'C04': ['persist'], 'C13': ['fs'], 'C14': ['sched'],
-    'C09': ['keys'], 'C10': ['keys'], 'C11': ['keys'], 'C19': ['keys'],
+    'C09': ['keys', 'round'], 'C10': ['keys'], 'C11': ['keys'], 'C19': ['keys'],
 }
 
 
@@ -32,7 +32,7 @@ def strip_comments(src):
 
 
 # further modules whose theorems live in the property's namespace (they import the property's own file)
-EXTRA_MODULES = {'C09': ['Klepto.Props.PosOnly'], 'C10': ['Klepto.Props.PosOnly'], 'C19': ['Klepto.Props.PosOnly'], 'C01': []}
+EXTRA_MODULES = {'C09': ['Klepto.Props.PosOnly', 'Klepto.Props.C09Tol'], 'C10': ['Klepto.Props.PosOnly'], 'C19': ['Klepto.Props.PosOnly'], 'C01': []}
 
 
 def lean_side(prop, tier):
